@@ -90,10 +90,17 @@ def generate(rng, tier):
         lay = dict(zip(DIRS, lay_t))
         for order in orders:
             n += 1
-            lines = gen.prelude(SCHEMA) + pw + layout_lines(lay)
+            # the list holds every directory added, evaluated when a name is looked up: on every third scenario the
+            # directories and files appear only AFTER they were added; $HOME (pointing elsewhere) never matters for `~`
+            late = n % 3 == 0
+            lines = gen.prelude(SCHEMA) + pw + ([] if late else layout_lines(lay))
+            if n % 2 == 0:
+                lines.append('env %s %s' % (hx(b'HOME'), hx(b'@R/d3')))
             exp = {}
             for d in order:
                 lines.append('searchpath 0 ' + hx(d))
+            if late:
+                lines += layout_lines(lay)
             for nm in names:
                 e = expected(lay, order, nm, homes)
                 if b'./' not in nm:
@@ -141,6 +148,8 @@ def generate(rng, tier):
         exp[len(lines)] = ('tilde', tilde(nm, homes))
         lines.append('tilde ' + hx(nm))
     yield Scn('tilde-table', lines, {'class': 'tilde', 'expect': exp, 'ndirs': 0, 'tilde': True})
+    yield Scn('tilde-table-home', ['env %s %s' % (hx(b'HOME'), hx(b'@R/elsewhere'))] + lines,
+              {'class': 'tilde', 'expect': {k + 1: v for k, v in exp.items()}, 'ndirs': 0, 'tilde': True})
     lines = []
     exp = {}
     for nm in [b'~', b'~/x', b'~bob/x']:
